@@ -220,3 +220,61 @@ def modules_tables(repo: Path) -> str:
     out.append("")
     out.append("end ASV.Modules.T")
     return "\n".join(out) + "\n"
+
+from .gen_tables import TableError, find_assign, lean_str, lean_str_list, literal, table  # noqa: F401
+
+_RULE_PARSER = "antismash/common/hmm_rule_parser/rule_parser.py"
+_HMM_DETECTION = "antismash/detection/hmm_detection"
+
+
+@table("RuleTokens")
+def rule_tokens(repo: Path) -> str:
+    """C02: `Tokeniser.mapping` (symbol/keyword text -> TokenTypes member) and the numeric values of
+    the `TokenTypes` members, as written in the current source"""
+    path = repo / _RULE_PARSER
+    node = find_assign(path, "mapping", within="Tokeniser")
+    if not isinstance(node, ast.Dict):
+        raise TableError(f"{path}: Tokeniser.mapping is not a dict display")
+    pairs = []
+    for key, value in zip(node.keys, node.values):
+        if not (isinstance(key, ast.Constant) and isinstance(key.value, str)
+                and isinstance(value, ast.Attribute) and isinstance(value.value, ast.Name)
+                and value.value.id == "TokenTypes"):
+            raise TableError(f"{path}: unexpected entry in Tokeniser.mapping")
+        pairs.append((key.value, value.attr))
+    tree = ast.parse(path.read_text())
+    members = []
+    for cls in tree.body:
+        if isinstance(cls, ast.ClassDef) and cls.name == "TokenTypes":
+            for stmt in cls.body:
+                if isinstance(stmt, ast.Assign) and len(stmt.targets) == 1 and isinstance(stmt.targets[0], ast.Name) \
+                        and isinstance(stmt.value, ast.Constant) and isinstance(stmt.value.value, int):
+                    members.append((stmt.targets[0].id, stmt.value.value))
+    if not members:
+        raise TableError(f"{path}: TokenTypes members not found")
+    out = ["namespace ASV.Generated.RuleTokens",
+           "/-- `Tokeniser.mapping`: text ↦ name of the `TokenTypes` member -/",
+           "def mapping : List (String × String) := ["
+           + ", ".join(f"({lean_str(k)}, {lean_str(v)})" for k, v in pairs) + "]",
+           "/-- `TokenTypes`: member name ↦ numeric value -/",
+           "def tokenValues : List (String × Nat) := ["
+           + ", ".join(f"({lean_str(k)}, {v})" for k, v in members) + "]",
+           "end ASV.Generated.RuleTokens", ""]
+    return "\n".join(out)
+
+
+@table("ShippedRules")
+def shipped_rules(repo: Path) -> str:
+    """C02: the rule files shipped with hmm_detection, in strictness order, as raw text"""
+    levels = literal(repo / _HMM_DETECTION / "__init__.py", "_STRICTNESS_LEVELS")
+    out = ["namespace ASV.Generated.ShippedRules",
+           f"def levels : List String := {lean_str_list(list(levels))}"]
+    for level in levels:
+        text = (repo / _HMM_DETECTION / "cluster_rules" / f"{level}.txt").read_text(encoding="utf-8")
+        if not text.isascii():
+            raise TableError(f"{level}.txt contains non-ASCII characters (outside the modelled tokeniser domain)")
+        out.append(f"def {level}Txt : String := {lean_str(text)}")
+    out.append("def files : List (String × String) := ["
+               + ", ".join(f"({lean_str(level)}, {level}Txt)" for level in levels) + "]")
+    out += ["end ASV.Generated.ShippedRules", ""]
+    return "\n".join(out)
